@@ -137,6 +137,7 @@ fn show_resolved(sm: &SourceMap) -> String {
 
 fn show_raw(sm: &SourceMap) -> String {
     let toks: Vec<String> = sm.tokens().map(|t| crate::ops::map::show_tok(&t.get_raw_token())).collect();
+    let toks = { let mut t = toks; let m = crate::util::order_marker(&sm); if !m.is_empty() { t.push(m.to_string()); } t };
     let ign: Vec<String> = sm.ignore_list().map(|x| x.to_string()).collect();
     format!(
         "ok T={} R={} I={} n={}/{}",
